@@ -310,6 +310,17 @@ Qed.
 Lemma each_once_in_dir_lemma suf f : wf f -> NoDup (selected suf f).
 Proof. intros H. unfold selected. apply NoDup_filter. apply NoDup_glob. exact H. Qed.
 
+(* on a well-formed tree [reaches] and [node_at] coincide, so the selection theorem can be read with either *)
+Lemma In_lookup_wf es n c : NoDup (map fst es) -> In (n, c) es -> lookup es n = Some c.
+Proof.
+  induction es as [|[m d] r IH]; simpl; intros Hnd Hin; [contradiction|].
+  inversion Hnd as [|? ? Hnot Hnd']; subst. destruct Hin as [Heq|Hin].
+  - inversion Heq; subst. rewrite str_eqb_refl. reflexivity.
+  - destruct (str_eqb n m) eqn:E.
+    + apply str_eqb_eq in E. subst. exfalso. apply Hnot. apply (in_map fst) in Hin. exact Hin.
+    + apply IH; assumption.
+Qed.
+
 (* ---- the whole of get_component_files ---- *)
 Lemma wf_lookup es n c : wf (Dir es) -> lookup es n = Some c -> wf c.
 Proof.
@@ -330,6 +341,22 @@ Qed.
 Lemma wf_tree_at root d : wf root -> wf (tree_at root d).
 Proof.
   intros H. unfold tree_at. destruct (node_at root d) eqn:E; [eapply wf_node_at; eassumption | exact I].
+Qed.
+
+Lemma reaches_node_at_wf f p c : wf f -> reaches f p c -> node_at f p = Some c.
+Proof.
+  intros Hwf Hr. induction Hr as [f|es n c p f Hin Hr IH]; [reflexivity|].
+  pose proof Hwf as Hwf'. simpl in Hwf'. destruct Hwf' as [Hnd _].
+  simpl. rewrite (In_lookup_wf es n c Hnd Hin). apply IH.
+  eapply wf_lookup; [exact Hwf | apply In_lookup_wf; eassumption].
+Qed.
+
+Lemma selected_iff_reaches_lemma suf f p :
+  wf f -> (In p (selected suf f) <-> reaches f p File /\ glob_ok suf p /\ public_rel p).
+Proof.
+  intros Hwf. rewrite selected_iff_lemma. split; intros [H1 H2]; split; auto.
+  - apply node_at_reaches; exact H1.
+  - apply reaches_node_at_wf; assumption.
 Qed.
 
 Definition files_below (root : fs) (suf : str) (d : list str) : list (list str) :=
@@ -653,14 +680,6 @@ Definition drop_init (parts : list str) : list str :=
 
 Definition import_parts (rel : list str) : list str := drop_init (module_parts rel).
 
-(* names as the guard demands: directory names without dots, file = stem "." extension, no
-   further dot, nothing empty *)
-Definition clean_rel (d : list str) (m e : str) : Prop :=
-  Forall clean_part d /\ clean_part m /\ clean_part e.
-
-Lemma clean_rel_stem d m e : clean_rel d m e -> stem_of (m ++ DOT :: e) m.
-Proof. intros [_ [Hm He]]. right. exists e. auto. Qed.
-
 Lemma clean_parts_dotfree l : Forall clean_part l -> Forall dotfree l.
 Proof. apply Forall_impl. intros a [_ H]. exact H. Qed.
 
@@ -780,14 +799,184 @@ Proof.
     destruct Hj as [t Hj]. rewrite Hj in *. rewrite contains_dotdot_cons, Hc, andb_false_r. exact IH.
 Qed.
 
-Lemma dotdot_filter_noop_lemma base d m e fp :
-  strip_prefix base fp = Some (d ++ [m ++ DOT :: e]) -> clean_rel d m e ->
-  dir_entry_of base fp = Ok (Some (module_path None (d ++ [m ++ DOT :: e]), fp)).
+Lemma dotdot_filter_noop_lemma base d n s fp :
+  strip_prefix base fp = Some (d ++ [n]) -> Forall clean_part d -> clean_part s -> stem_of n s ->
+  dir_entry_of base fp = Ok (Some (module_path None (d ++ [n]), fp)).
 Proof.
-  intros Hs Hc. unfold dir_entry_of. rewrite Hs.
-  destruct (module_path_cases d m e Hc) as [H1 H2]. rewrite H1, H2.
-  rewrite contains_dotdot_join; [reflexivity|]. destruct Hc as [Hd [Hm _]].
-  destruct (str_eqb m INIT && _); [exact Hd | apply Forall_app; split; [exact Hd | constructor; [exact Hm | constructor]]].
+  intros Hp Hd Hs Hn. unfold dir_entry_of. rewrite Hp.
+  rewrite (module_path_cases d n s Hd Hs Hn).
+  rewrite contains_dotdot_join; [reflexivity|]. apply drop_init_clean; assumption.
+Qed.
+
+(* ---- the guard is exactly the negation of the recorded finding's input class ---- *)
+Lemma has_dot_false_iff n : has_dot n = false <-> dotfree n.
+Proof.
+  unfold has_dot. induction n as [|c n IH].
+  - simpl. split; [intros _ [] | reflexivity].
+  - cbn [existsb]. rewrite orb_false_iff, IH, dotfree_cons, (N.eqb_sym DOT c). tauto.
+Qed.
+
+Lemma take_nodot_spec r : forall a b, take_nodot r = (a, b) ->
+  r = a ++ b /\ dotfree a /\ (b = [] \/ exists b', b = DOT :: b').
+Proof.
+  induction r as [|c r IH]; intros a b H; simpl in H.
+  - inversion H; subst. split; [reflexivity|]. split; [intros []|]. left; reflexivity.
+  - destruct (N.eqb c DOT) eqn:Ec.
+    + inversion H; subst. apply N.eqb_eq in Ec. subst c.
+      split; [reflexivity|]. split; [intros []|]. right. eexists; reflexivity.
+    + destruct (take_nodot r) as [a' b'] eqn:E. inversion H; subst.
+      destruct (IH a' b eq_refl) as [Hr [Ha Hb]]. split; [simpl; congruence|].
+      split; [apply dotfree_cons; split; assumption | exact Hb].
+Qed.
+
+Lemma rev_nonempty {A} (l : list A) : l <> [] -> rev l <> [].
+Proof. intros H E. apply H. rewrite <- (rev_involutive l), E. reflexivity. Qed.
+
+Lemma stem_exists n : n <> [] -> has_dot (strip_suffix n) = false -> exists s, clean_part s /\ stem_of n s.
+Proof.
+  intros Hn. unfold strip_suffix. destruct (take_nodot (rev n)) as [a b] eqn:E.
+  apply take_nodot_spec in E as [Hr [Ha Hb]].
+  assert (Hplain : has_dot n = false -> exists s, clean_part s /\ stem_of n s).
+  { intros H. apply has_dot_false_iff in H. exists n. split; [split; assumption | left; split; [exact H | reflexivity]]. }
+  destruct a as [|x a']; [exact Hplain|]. destruct b as [|y b']; [exact Hplain|].
+  destruct b' as [|z b'']; [exact Hplain|]. intros H. apply has_dot_false_iff in H.
+  destruct Hb as [Hb|[t Hb]]; [discriminate|]. inversion Hb; subst y t.
+  assert (Hnn : n = rev (z :: b'') ++ DOT :: rev (x :: a')).
+  { rewrite <- (rev_involutive n), Hr, rev_app_distr. change (DOT :: z :: b'') with ([DOT] ++ z :: b'').
+    rewrite rev_app_distr, <- app_assoc. reflexivity. }
+  exists (rev (z :: b'')). split; [split; [apply rev_nonempty; discriminate | exact H]|].
+  right. exists (rev (x :: a')). split; [exact Hnn|]. split.
+  - split; [apply rev_nonempty; discriminate | exact H].
+  - split; [apply rev_nonempty; discriminate | apply dotfree_rev; exact Ha].
+Qed.
+
+(* no component of rel contains a '.' besides the final suffix (and rel names a file: non-empty names) *)
+Definition no_interior_dot (rel : list str) : Prop :=
+  Forall clean_part (removelast rel) /\ exists s, clean_part s /\ stem_of (last rel []) s.
+
+Lemma Forall_removelast_last {A} (P : A -> Prop) (l : list A) d :
+  l <> [] -> Forall P l -> Forall P (removelast l) /\ P (last l d).
+Proof.
+  intros Hne H. rewrite (app_removelast_last d Hne) in H. apply Forall_app in H as [H1 H2].
+  split; [exact H1 | inversion H2; assumption].
+Qed.
+
+Lemma guard_is_negated_trigger_lemma rel :
+  rel <> [] -> Forall (fun n : str => n <> []) rel ->
+  (dotted_trigger rel = false <-> no_interior_dot rel).
+Proof.
+  intros Hne Hall. destruct (Forall_removelast_last _ rel [] Hne Hall) as [Hd Hn].
+  unfold dotted_trigger, no_interior_dot. rewrite orb_false_iff, existsb_false_Forall. split.
+  - intros [H1 H2]. split.
+    + clear - H1 Hd. induction Hd as [|x l Hx Hl IH]; [constructor|].
+      inversion H1; subst. constructor; [split; [exact Hx | apply has_dot_false_iff; assumption] | auto].
+    + apply stem_exists; assumption.
+  - intros [H1 [s [[Hs1 Hs2] Hst]]]. split.
+    + eapply Forall_impl; [|exact H1]. intros a [_ Ha]. apply has_dot_false_iff. exact Ha.
+    + rewrite (strip_suffix_stem _ s Hst). apply has_dot_false_iff. exact Hs2.
+Qed.
+
+(* ---- app files: the same round trip with the app's (dotted) name in front ---- *)
+Lemma dot_path_roundtrip_app_lemma np d n s :
+  np <> [] -> Forall clean_part np -> Forall clean_part d -> clean_part s -> stem_of n s ->
+  split_dot (module_path (Some (join_dot np)) (d ++ [n])) = drop_init (np ++ d ++ [s]).
+Proof.
+  intros Hnp Hc Hd Hs Hn. rewrite app_module_path_lemma.
+  - rewrite !app_assoc. apply dot_path_roundtrip_lemma; [apply Forall_app; split; assumption | exact Hs | exact Hn].
+  - exact Hnp.
+  - destruct np as [|a r]; [congruence|]. inversion Hc as [|? ? [Ha _] _]. exact Ha.
+  - destruct d; discriminate.
+Qed.
+
+(* ================================================================================== *)
+(* D'. get_component_files as a whole                                                  *)
+(* ================================================================================== *)
+Definition public_file (suf : str) (f : fs) (p : list str) : Prop :=
+  node_at f p = Some File /\ glob_ok suf p /\ public_rel p.
+
+Lemma in_files_below root suf d fp :
+  In fp (files_below root suf d) <-> exists p, fp = d ++ p /\ public_file suf (tree_at root d) p.
+Proof.
+  unfold files_below, public_file. rewrite in_map_iff. split.
+  - intros [p [<- Hp]]. exists p. split; [reflexivity | apply selected_iff_lemma; exact Hp].
+  - intros [p [-> Hp]]. exists p. split; [reflexivity | apply selected_iff_lemma; exact Hp].
+Qed.
+
+(* the file paths get_component_files returns: the public files below every configured directory that
+   survive the ".." filter, and the public files below every existing [app]/[app_dir] *)
+Lemma files_returned_iff_lemma w suffix l dirs :
+  get_component_files w suffix = Ok l -> get_component_dirs w false = Ok dirs ->
+  forall fp, In fp (map snd l) <->
+    (exists d p, In d dirs /\ fp = d ++ p /\ public_file (suffix_of suffix) (tree_at (w_root w) d) p /\
+                 kept_by_dotdot (w_base w) fp = true)
+    \/ (exists s p, In s (app_sources w) /\ fp = src_dir s ++ p /\
+                    public_file (suffix_of suffix) (tree_at (w_root w) (src_dir s)) p).
+Proof.
+  intros Hl Hd fp. apply files_shape in Hl as [dirs' [es1 [Hd' [H1 ->]]]].
+  rewrite Hd in Hd'. inversion Hd'; subst dirs'.
+  rewrite map_app, in_app_iff, (dir_entries_snd _ _ _ H1), app_sources_snd, filter_In, !in_flat_map.
+  split.
+  - intros [[[d [Hdin Hfp]] Hk]|[sd [Hsd Hfp]]].
+    + left. apply in_files_below in Hfp as [p [-> Hp]]. exists d, p. auto.
+    + right. apply in_map_iff in Hsd as [s [<- Hs]]. apply in_files_below in Hfp as [p [-> Hp]]. exists s, p. auto.
+  - intros [[d [p [Hdin [-> [Hp Hk]]]]]|[s [p [Hs [-> Hp]]]]].
+    + left. split; [|exact Hk]. exists d. split; [exact Hdin | apply in_files_below; exists p; auto].
+    + right. exists (src_dir s). split; [apply in_map; exact Hs | apply in_files_below; exists p; auto].
+Qed.
+
+(* under the guard the ".." filter removes nothing: exactly the public files of all source directories *)
+Lemma files_exactly_public_lemma w suffix l dirs :
+  get_component_files w suffix = Ok l -> get_component_dirs w false = Ok dirs ->
+  (forall d p, In d dirs -> public_file (suffix_of suffix) (tree_at (w_root w) d) p ->
+     exists rel, strip_prefix (w_base w) (d ++ p) = Some rel /\ no_interior_dot rel) ->
+  forall fp, In fp (map snd l) <->
+    exists src p, In src (dirs ++ map src_dir (app_sources w)) /\ fp = src ++ p /\
+                  public_file (suffix_of suffix) (tree_at (w_root w) src) p.
+Proof.
+  intros Hl Hd Hguard fp. rewrite (files_returned_iff_lemma w suffix l dirs Hl Hd fp). split.
+  - intros [[d [p [Hdin [-> [Hp _]]]]]|[s [p [Hs [-> Hp]]]]].
+    + exists d, p. split; [apply in_app_iff; left; exact Hdin | auto].
+    + exists (src_dir s), p. split; [apply in_app_iff; right; apply in_map; exact Hs | auto].
+  - intros [src [p [Hin [-> Hp]]]]. apply in_app_iff in Hin as [Hin|Hin].
+    + left. exists src, p. split; [exact Hin|]. split; [reflexivity|]. split; [exact Hp|].
+      destruct (Hguard src p Hin Hp) as [rel [Hrel [Hdirs [s [Hs Hst]]]]].
+      assert (Hne : rel <> []).
+      { intros ->. simpl in Hst. destruct Hst as [[_ ->]|[e [He _]]]; [destruct Hs; congruence | destruct s; discriminate]. }
+      rewrite (app_removelast_last [] Hne) in Hrel. unfold kept_by_dotdot.
+      rewrite (dotdot_filter_noop_lemma _ _ _ s _ Hrel Hdirs Hs Hst). reflexivity.
+    + right. apply in_map_iff in Hin as [s [<- Hs]]. exists s, p. auto.
+Qed.
+
+Lemma In_somes {A} (x : A) l : In x (somes l) <-> In (Some x) l.
+Proof.
+  induction l as [|[y|] l IH]; simpl; [tauto | |].
+  - rewrite IH. split; intros [H|H]; auto; [left; congruence | inversion H; auto].
+  - rewrite IH. split; [auto | intros [H|H]; [discriminate | exact H]].
+Qed.
+
+Lemma map_res_In {A B} (k : A -> res B) l : forall ys y,
+  map_res k l = Ok ys -> In y ys -> exists x, In x l /\ k x = Ok y.
+Proof.
+  induction l as [|x l IH]; simpl; intros ys y H Hin.
+  - inversion H; subst. contradiction.
+  - destruct (k x) as [y0|] eqn:E; simpl in H; [|discriminate].
+    destruct (map_res k l) as [r'|] eqn:E2; simpl in H; [|discriminate]. inversion H; subst.
+    destruct Hin as [<-|Hin]; [exists x; auto|]. destruct (IH r' y eq_refl Hin) as [x' [H1 H2]]. exists x'; auto.
+Qed.
+
+(* and the dot path that comes with each returned file *)
+Lemma entries_dot_path_lemma w suffix l dp fp :
+  get_component_files w suffix = Ok l -> In (dp, fp) l ->
+  (exists rel, strip_prefix (w_base w) fp = Some rel /\ dp = module_path None rel) \/
+  (exists s p, In s (app_sources w) /\ fp = src_dir s ++ p /\ dp = module_path (Some (fst (fst s))) (snd s ++ p)).
+Proof.
+  intros Hl Hin. apply files_shape in Hl as [dirs [es1 [_ [H1 ->]]]]. apply in_app_iff in Hin as [Hin|Hin].
+  - left. apply In_somes in Hin. destruct (map_res_In _ _ _ _ H1 Hin) as [x [_ Hx]].
+    unfold dir_entry_of in Hx. destruct (strip_prefix (w_base w) x) as [rel|] eqn:E; [|discriminate].
+    destruct (contains DOTDOT (module_path None rel)); inversion Hx; subst. exists rel. auto.
+  - right. apply in_flat_map in Hin as [s [Hs Hin]]. unfold app_entries_of in Hin.
+    apply in_map_iff in Hin as [p [Heq _]]. inversion Heq; subst. exists s, p.
+    split; [exact Hs|]. split; [unfold src_dir; rewrite app_assoc; reflexivity | reflexivity].
 Qed.
 
 (* ================================================================================== *)
@@ -865,17 +1054,19 @@ Definition importable (es : list (str * fs)) (d : list str) (m : str) : Prop :=
   if str_eqb m INIT && negb (match d with [] => true | _ => false end) then pkg_ok es d else mod_ok es d m.
 
 Lemma import_path_right_lemma es d m :
-  clean_rel d m PYEXT -> importable es d m ->
+  Forall clean_part d -> clean_part m -> importable es d m ->
   py_find es (split_dot (module_path None (d ++ [m ++ PY]))) = Some (d ++ [m ++ PY]).
 Proof.
-  intros Hc Hi. change PY with (DOT :: PYEXT). rewrite (dot_path_roundtrip_lemma d m PYEXT Hc).
-  destruct (module_path_cases d m PYEXT Hc) as [_ H2]. rewrite H2. unfold importable in Hi.
-  destruct Hc as [Hd [Hm _]].
+  intros Hd Hm Hi.
+  assert (Hst : stem_of (m ++ PY) m).
+  { right. exists PYEXT. split; [reflexivity|]. split; [exact Hm|]. split; [discriminate|].
+    unfold dotfree. vm_compute. intuition discriminate. }
+  rewrite (dot_path_roundtrip_lemma d (m ++ PY) m Hd Hm Hst), drop_init_snoc. unfold importable in Hi.
   assert (Hne : Forall (fun s : list N => s <> []) d) by (eapply Forall_impl; [|exact Hd]; intros a [H _]; exact H).
   destruct (str_eqb m INIT && _) eqn:E.
   - apply andb_true_iff in E as [E _]. apply str_eqb_eq in E. subst m.
-    change (INIT ++ DOT :: PYEXT) with INIT_PY. apply py_find_package; assumption.
-  - change (DOT :: PYEXT) with PY. apply py_find_module; [apply Hm | assumption | assumption].
+    change (INIT ++ PY) with INIT_PY. apply py_find_package; assumption.
+  - apply py_find_module; [apply Hm | assumption | assumption].
 Qed.
 
 (* ---- witnesses: what the current code does on names outside the guards ---- *)
@@ -887,26 +1078,39 @@ Local Close Scope string_scope.
 
 (* a public file my.comp.py is returned, with a dot path that does not import it *)
 Lemma dotted_name_refuted_lemma :
-  exists es rel, In rel (selected PY (Dir es)) /\ reaches (Dir es) rel File /\
+  exists es rel, In rel (selected PY (Dir es)) /\ node_at (Dir es) rel = Some File /\ dotted_trigger rel = true /\
                  py_find es (split_dot (module_path None rel)) <> Some rel.
 Proof.
-  exists [(MY_COMP_PY, File)], [MY_COMP_PY]. split; [|split].
+  exists [(MY_COMP_PY, File)], [MY_COMP_PY]. split; [|split; [|split]].
   - vm_compute. left; reflexivity.
-  - econstructor; [left; reflexivity | constructor].
+  - reflexivity.
+  - reflexivity.
+  - vm_compute. discriminate.
+Qed.
+
+(* outside the guard the round trip fails: comps/my.comp.py has the dot path comps.my.comp *)
+Lemma dot_path_roundtrip_refuted_lemma :
+  exists d n, Forall clean_part d /\ n <> [] /\ dotted_trigger (d ++ [n]) = true /\
+              split_dot (module_path None (d ++ [n])) <> drop_init (d ++ [strip_suffix n]).
+Proof.
+  exists [COMPS], MY_COMP_PY. split; [|split; [discriminate|split]].
+  - repeat constructor; [discriminate|]. unfold dotfree. vm_compute. intuition discriminate.
+  - vm_compute. reflexivity.
   - vm_compute. discriminate.
 Qed.
 
 (* a public, non-hidden file ab..cd.py below COMPONENTS.dirs is dropped by the ".." filter *)
 Lemma dotdot_drops_public_file_refuted_lemma :
   exists w l d p, get_component_files w (Some PY) = Ok l /\ get_component_dirs w false = Ok [d] /\
-    reaches (tree_at (w_root w) d) p File /\ glob_ok PY p /\ public_rel p /\ ~ In (d ++ p) (map snd l).
+    public_file PY (tree_at (w_root w) d) p /\ dotted_trigger (d ++ p) = true /\ ~ In (d ++ p) (map snd l).
 Proof.
   exists {| w_root := Dir [(COMPS, Dir [(AB_DD_CD_PY, File)])]; w_base := [];
             w_dirs := Some [RPlain (PAbs [COMPS])]; w_static := []; w_app_dirs := []; w_apps := [] |}.
   exists [], [COMPS], [AB_DD_CD_PY]. split; [vm_compute; reflexivity|]. split; [vm_compute; reflexivity|].
-  split; [|split; [|split]].
-  - vm_compute. econstructor; [left; reflexivity | constructor].
-  - split; [discriminate|]. split; [repeat constructor | reflexivity].
-  - split; [constructor | left; reflexivity].
+  split; [|split].
+  - split; [reflexivity|]. split.
+    + split; [discriminate|]. split; [repeat constructor | reflexivity].
+    + split; [constructor | left; reflexivity].
+  - reflexivity.
   - simpl. tauto.
 Qed.
